@@ -198,6 +198,65 @@ const trivialAddr = "0xc0de0000000000000000000000000000000000ff"
 // fatAcct holds 2^256-1 wei in the pre-state (a possible pre-state, if not a likely one)
 const fatAcct = "0xfa7000000000000000000000000000000000fa70"
 
+// genJournalCoherent: a well-formed key family (state variable, member, member of the
+// member) whose registrations and change journals arrive in a random order with
+// repetitions - every order is legal input and none may crash the tracer.
+func genJournalCoherent(r *RNG) []Macro {
+	slots := []string{hxu(uint64(3 + r.Intn(4))), hxu(uint64(0x40 + r.Intn(4))), hxu(uint64(0x80 + r.Intn(4)))}
+	tids := []string{typeID(pick(r, []string{"t", "mapping", "uint256"})), typeID(pick(r, []string{"t", "struct", "uint256"})), typeID(pick(r, []string{"uint256", "string"}))}
+	ms := nameWord(pick(r, []string{"v", "balances", ""}))
+	n := 3 + r.Intn(7)
+	reg := -1 // highest level registered so far (an unregistered parent halts the frame: legal, but short)
+	for k := 0; k < n; k++ {
+		lvl := r.Intn(3)
+		if lvl > reg+1 && r.P(4, 5) {
+			lvl = reg + 1
+		}
+		what := r.Intn(5)
+		if lvl > reg && r.P(4, 5) {
+			what = 0
+		}
+		switch what {
+		case 0, 1: // register level lvl
+			if lvl > reg {
+				reg = lvl
+			}
+			switch {
+			case lvl == 0 && r.Bool():
+				ms = append(ms, Macro{K: "op", Op: "VSVJNAL", A: []string{"0x200", slots[0], "0x0", tids[0]}})
+			case lvl == 0:
+				ms = append(ms, Macro{K: "op", Op: "RSVJNAL", A: []string{"0x200", slots[0], tids[0]}})
+			case r.Bool():
+				ms = append(ms, Macro{K: "op", Op: "IVVVJNAL", A: []string{slots[lvl-1], slots[lvl], genVal(r), "0x0", tids[lvl], tids[lvl-1]}})
+			default:
+				ms = append(ms, Macro{K: "op", Op: "IVVRJNAL", A: []string{slots[lvl-1], slots[lvl], genVal(r), tids[lvl], tids[lvl-1]}})
+			}
+		case 2, 3: // journal a change of level lvl
+			if r.P(1, 3) {
+				ms = append(ms, Macro{K: "op", Op: "SSTORE", A: []string{slots[lvl], pick(r, []string{genVal(r), shortString(r)})}})
+			}
+			if r.P(3, 4) {
+				ms = append(ms, Macro{K: "op", Op: "VVJNAL", A: []string{slots[lvl], "0x0", "0x20", tids[lvl]}})
+			} else {
+				ms = append(ms, Macro{K: "op", Op: "VRJNAL", A: []string{slots[lvl], tids[lvl]}})
+			}
+		default: // member addressed through memory (index taken from a memory string)
+			if lvl == 0 {
+				lvl = 1
+			}
+			if lvl > reg {
+				reg = lvl
+			}
+			if r.Bool() {
+				ms = append(ms, Macro{K: "op", Op: "IRVVJNAL", A: []string{slots[lvl-1], slots[lvl], "0x200", "0x0", tids[lvl], tids[lvl-1]}})
+			} else {
+				ms = append(ms, Macro{K: "op", Op: "IRVRJNAL", A: []string{slots[lvl-1], slots[lvl], "0x200", tids[lvl], tids[lvl-1]}})
+			}
+		}
+	}
+	return ms
+}
+
 // genJournalLoop: one frame that executes thousands of flat-fee journal instructions -
 // the work each of them does must not grow with what was journaled before (C20's
 // "loops, copies or allocations of attacker-chosen size for a flat fee", amortised).
@@ -309,7 +368,11 @@ func genC03(seed uint64, tier string) *Scenario {
 						p.M = append(p.M, Macro{K: "call", Op: pick(r, []string{"CALL", "STATICCALL"}), A: []string{"GAS", tgt, "0x0", off, big, off, "0x20"}})
 					}
 				case (profile == "journal" || profile == "mixed") && x < 6:
-					p.M = append(p.M, genJournalAdversarial(r)...)
+					if r.P(1, 3) {
+						p.M = append(p.M, genJournalCoherent(r)...)
+					} else {
+						p.M = append(p.M, genJournalAdversarial(r)...)
+					}
 				case (profile == "artela" || profile == "mixed") && x < 6:
 					p.M = append(p.M, genArtelaCall(r, sc.Fork)...)
 				case x < 8 && i+1 < n:
